@@ -90,7 +90,17 @@ def script_from_state(m, sc, v, trail=None):
             hint_shapes.append(shape)
             if shape and shape[-1]:
                 self_hint = True
-        invoices.append({'ident': iv.ident, 'amount': ev(iv.amount, mdl), 'sig_ok': sig, 'self_hint': self_hint, 'hints': hint_shapes})
+        ent = {'ident': iv.ident, 'amount': ev(iv.amount, mdl), 'sig_ok': sig, 'self_hint': self_hint, 'hints': hint_shapes}
+        # two different invoices for one payment hash: natively the later one takes the hash of the earlier
+        for j, prev in enumerate(cfg['invoices'][:len(invoices)]):
+            try:
+                same = (prev.hash is iv.hash) or bool(sym.evaluate(sym.eq(prev.hash, iv.hash), mdl))
+            except Exception:
+                same = False
+            if same:
+                ent['hash_of'] = invoices[j].get('hash_of', prev.ident)
+                break
+        invoices.append(ent)
     setup = []
     mode = st.roots.get('store_init', 'free_absent')
     inv0 = cfg['invoices'][0].ident
@@ -160,6 +170,11 @@ def script_from_state(m, sc, v, trail=None):
         mm = re.match(r'^poll htlc(\d+)#', lab)
         if mm and int(mm.group(1)) in pending_delivery:
             pending_delivery.discard(int(mm.group(1)))
+            if v.kind == 'timer-not-started-after-store-answer' and any(x.get('op') == 'htlc' for x in steps):
+                # a timer armed again when a further part arrives: let 0.6 of the MPP period pass before that part, and
+                # again at the end -- on time means answered by then, a re-armed timer means still waiting
+                steps.append({'op': 'advance', 'ms': int(config['mpp_timeout_s']) * 600})
+                steps.append({'op': 'settle'})
             steps.append(htlc_op(sc, specs[int(mm.group(1))], mdl))
             steps.append({'op': 'settle'})
             continue
@@ -230,7 +245,12 @@ def script_from_state(m, sc, v, trail=None):
             if mm.group(2) == 'creates part':
                 steps.append({'op': 'pay_part', 'inv': inv0})
             elif mm.group(2).startswith('returns'):
-                steps.append({'op': 'rpc', 'method': 'pay', 'outcome': mm.group(3), 'inv': inv0})
+                # like every answer: handed over when the model polls the task that waits for it
+                try:
+                    owner = env.calls[int(mm.group(1))].task
+                except Exception:
+                    owner = None
+                deferred.append((owner, {'op': 'rpc', 'method': 'pay', 'outcome': mm.group(3), 'inv': inv0}))
             continue
         mm = re.match(r'^fire (timer\d+)$', lab)
         if mm:
@@ -258,7 +278,11 @@ def script_from_state(m, sc, v, trail=None):
     for k in sorted(pending_delivery):
         steps.append(htlc_op(sc, specs[k], mdl))
         steps.append({'op': 'settle'})
-    flush()
+    if v.kind not in LOCK_KINDS:
+        flush()           # (lock probes run while the answers the model had not handed over yet are still outstanding)
+    if v.kind == 'timer-not-started-after-store-answer':
+        steps.append({'op': 'advance', 'ms': int(config['mpp_timeout_s']) * 600})
+        steps.append({'op': 'settle'})
     if v.kind in ('restart-grants-more-than-one-period', 'wrong-restart-timeout', 'wrong-timeout'):
         # the counterexample ends when the timer is armed: probe natively one MPP period (+0.5 s) later
         steps.append({'op': 'advance', 'ms': int(config['mpp_timeout_s']) * 1000 + 500})
